@@ -228,3 +228,143 @@ func (p *Package) NumActions() int {
 	}
 	return n
 }
+
+// ---------- directed streams ----------
+
+// numeric element types: what a long container of them looks like fits a correspondence case
+var sizeNums = []string{"uint8", "int8", "uint8", "int16", "uint16", "bool", "int32", "float32", "int64"}
+
+// keys with room for more than 4096 different values
+var sizeKeys = []string{"uint16", "int16", "int32", "uint32", "int64", "uint64", "str"}
+
+// container draws a type with at least one list or map in it: a list or map of numbers, of
+// any leaf (strings, dynamic values, structs), a container in a container, a container as
+// struct field or tuple member.
+func (g *gen) container(p *Package) *IType {
+	num := func() *IType { return Sc(sizeNums[g.r.Intn(len(sizeNums))]) }
+	key := func() *IType { return Sc(sizeKeys[g.r.Intn(len(sizeKeys))]) }
+	flat := func() *IType {
+		switch g.r.Intn(5) {
+		case 0, 1:
+			return Vec(num())
+		case 2:
+			return MapOf(key(), num())
+		case 3:
+			return Vec(g.leaf())
+		default:
+			return MapOf(key(), g.leaf())
+		}
+	}
+	switch g.r.Intn(8) {
+	case 0, 1, 2, 3:
+		return flat()
+	case 4:
+		return Vec(flat())
+	case 5:
+		return MapOf(key(), flat())
+	case 6:
+		return TupleOf(Sc("int32"), flat())
+	default:
+		// a struct that holds the container next to plain fields
+		s := &StructDecl{Name: fmt.Sprintf("Hold%d", len(p.Structs)), Fields: []Field{{"n", Sc("int32")}, {"items", flat()}, {"label", Sc("str")}}}
+		p.Structs = append(p.Structs, s)
+		return RefTo(s)
+	}
+}
+
+// GenSizes draws a package every action of which carries a list or a map, to be driven with
+// the containers at the sizes where the codecs change behaviour (Package.Sizes).
+func GenSizes(r *hx.Rng, name string) *Package {
+	g := &gen{r: r, maxD: 2}
+	p := &Package{Name: name, Stream: "sizes", Sizes: "0,1,4095,4096", Steps: 6}
+	s := &StructDecl{Name: "Sample", Fields: []Field{{"id", Sc("int32")}, {"label", Sc("str")}}}
+	if r.Bool() {
+		s.Fields = append(s.Fields, Field{"w", g.scalar()})
+	}
+	p.Structs = append(p.Structs, s)
+	g.structs = []*StructDecl{s}
+	it := &Iface{Name: pickNames(r, plainIfaceNames, 1)[0]}
+	p.Ifaces = []*Iface{it}
+	nfn := 4 + r.Intn(2)
+	names := pickNames(r, plainActionNames, nfn+2)
+	for k := 0; k < nfn; k++ {
+		a := &Action{Kind: "fn", Name: names[k]}
+		pn := pickNames(r, plainParamNames, 3)
+		// a container as parameter (most methods), possibly between plain parameters; a container
+		// as result (most methods)
+		if k == 0 || r.Chance(0.75) {
+			if r.Chance(0.3) {
+				a.Params = append(a.Params, Param{pn[0], g.scalar()})
+			}
+			a.Params = append(a.Params, Param{pn[1], g.container(p)})
+			if r.Chance(0.3) {
+				a.Params = append(a.Params, Param{pn[2], g.scalar()})
+			}
+		}
+		if k == 1 || len(a.Params) == 0 || r.Chance(0.75) {
+			a.Ret = g.container(p)
+			for len(a.Params) == 0 && a.Ret.K == TTuple {
+				a.Ret = g.container(p)
+			}
+		}
+		it.Actions = append(it.Actions, a)
+	}
+	st := g.container(p)
+	for st.K == TTuple {
+		st = g.container(p)
+	}
+	it.Actions = append(it.Actions, &Action{Kind: "sig", Name: names[nfn], Params: []Param{{"a", st}}})
+	pt := g.container(p)
+	for pt.K == TTuple {
+		pt = g.container(p)
+	}
+	it.Actions = append(it.Actions, &Action{Kind: "prop", Name: names[nfn+1], Params: []Param{{"a", pt}}})
+	p.Number()
+	return p
+}
+
+// GenSequence draws a package with one interface that has several properties and signals
+// (and a method or two): what a long sequence on one stub / proxy pair needs.
+func GenSequence(r *hx.Rng, name string) *Package {
+	g := &gen{r: r, maxD: 2}
+	p := &Package{Name: name, Stream: "sequence", Steps: 28}
+	ns := r.Intn(3)
+	for i, sn := range pickNames(r, plainStructNames, ns) {
+		s := &StructDecl{Name: sn}
+		for _, fn := range pickNames(r, plainFieldNames, 1+r.Intn(3)) {
+			s.Fields = append(s.Fields, Field{fn, g.typ(1)})
+		}
+		_ = i
+		g.structs = append(g.structs, s)
+	}
+	p.Structs = g.structs
+	it := &Iface{Name: pickNames(r, plainIfaceNames, 1)[0]}
+	p.Ifaces = []*Iface{it}
+	np, nsig, nfn := 2+r.Intn(3), 1+r.Intn(3), 1+r.Intn(2)
+	names := pickNames(r, plainActionNames, np+nsig+nfn)
+	var acts []*Action
+	for k := 0; k < np; k++ {
+		acts = append(acts, &Action{Kind: "prop", Name: names[k], Params: g.params(r.Pick(1, 1, 1, 1, 1, 2), true)})
+	}
+	for k := 0; k < nsig; k++ {
+		acts = append(acts, &Action{Kind: "sig", Name: names[np+k], Params: g.params(r.Pick(1, 1, 2, 3, 0), true)})
+	}
+	for k := 0; k < nfn; k++ {
+		a := &Action{Kind: "fn", Name: names[np+nsig+k], Params: g.params(r.Intn(3), false)}
+		if r.Bool() {
+			a.Ret = g.typ(0)
+			for len(a.Params) == 0 && a.Ret.K == TTuple {
+				a.Ret = g.typ(0)
+			}
+		}
+		acts = append(acts, a)
+	}
+	// declaration order is drawn (ids follow it)
+	for i := len(acts) - 1; i > 0; i-- {
+		j := r.Intn(i + 1)
+		acts[i], acts[j] = acts[j], acts[i]
+	}
+	it.Actions = acts
+	p.Number()
+	return p
+}
